@@ -1270,13 +1270,40 @@ def run_effects(prog) -> Tuple[List[str], int]:
         want_obj = before.get("objective") if objective is None else _objective_of(before, *objective)
         if after.get("objective") != want_obj:
             out.append(f"`{what}`: afterwards the objective is {after.get('objective')!r:.160}, " + ("it was" if objective is None else "documented:") + f" {want_obj!r:.160}")
+    # what the model reports about its objective is what the objective holds - also for a reaction whose identifier
+    # looks like the name of a solver variable (a reverse variable is called <id>_reverse_<hash>)
+    w, m, h = _fresh(prog)
+    what = "reaction.objective_coefficient"
+    try:
+        odd = {}
+        for rid in ("R2_reverse_leg", "reverse_R", "R1_reverse_"):
+            r = w.new("Reaction", rid, lower_bound=-4.0, upper_bound=6.0)
+            r.add_metabolites({h["mets"]["a_c"]: -1.0, h["mets"]["c_c"]: 1.0})
+            odd[rid] = r
+        m.add_reactions(list(odd.values()))
+        want = {"R2_reverse_leg": 2.0, "reverse_R": -1.5, "R1": 1.0, "R1_reverse_": 0.5}
+        m.objective = {(odd.get(k) or h[k]): v for k, v in want.items()}
+        got = _fn(w, "cobra.util.solver", "linear_reaction_coefficients", m)
+        got_ids = {object.__getattribute__(r, "__dict__")["_id"]: float(v) for r, v in got.items()}
+        if got_ids != want:
+            out.append(f"`{what}`: after model.objective = {want} linear_reaction_coefficients(model) reports {got_ids}")
+        for r in m.reactions:
+            rid = object.__getattribute__(r, "__dict__")["_id"]
+            c = r.objective_coefficient
+            if float(c) != want.get(rid, 0.0):
+                out.append(f"`{what}`: after model.objective = {want} the reaction {rid} reports the objective coefficient {c!r} (the writers store that number)")
+        n += 1
+    except EvalRaise as exc:
+        out.append(f"`{what}`: reading the objective coefficients of the toy model raises {exc.exc_type}")
+    except Unknown as exc:
+        raise AnalysisError(f"C02.effect: `{what}` cannot be evaluated: {exc}")
     prog._effects_report = (out, n)
     return out, n
 
 
 def check_effects(ctx, rule: str) -> None:
     fn = ctx.prog.func("cobra.core.model", "Model.add_boundary")
-    anchors = (("add_boundary", fn), ("objective", ctx.prog.func("cobra.util.solver", "set_objective")), ("bound", ctx.prog.func("cobra.core.reaction", "Reaction.bounds")),
+    anchors = (("add_boundary", fn), ("objective_coefficient", ctx.prog.func("cobra.util.solver", "linear_reaction_coefficients")), ("objective", ctx.prog.func("cobra.util.solver", "set_objective")), ("bound", ctx.prog.func("cobra.core.reaction", "Reaction.bounds")),
                ("", ctx.prog.func("cobra.core.reaction", "Reaction.add_metabolites")))
     found, n = run_effects(ctx.prog)
     if found:
